@@ -43,9 +43,16 @@ def corpus(seed, n):
         r = rng.random()
         if r < 0.5:
             v = gen.gen_json(rng, rng.choice([1, 2, 3, 4]), None, True)
-        elif r < 0.6:
+        elif r < 0.56:
             v = gen.gen_float(rng)
-        elif r < 0.7:
+        elif r < 0.62:
+            import struct
+            v = struct.unpack(">d", rng.getrandbits(64).to_bytes(8, "big"))[0]      # any float by bit pattern
+        elif r < 0.66:
+            v = gen.as_parsed("".join(chr(rng.randrange(0x110000)) for _ in range(rng.randint(1, 12))))   # any code points
+        elif r < 0.68:
+            v = gen.gen_deep(rng)
+        elif r < 0.72:
             v = gen.gen_str(rng, 40)
         elif r < 0.78:
             v = rng.choice([1, -1]) * rng.getrandbits(rng.choice([8, 64, 200, 1000, 4000, 14000]))
